@@ -136,6 +136,11 @@ let exec w (t : string list) : string =
       let zeros = List.init (int_of_nat (M.nsize sh)) (fun _ -> M.Z0) in
       ignore (step w (M.NewVec (nm (pval p), d, ds, b, zlist vals)));
       ignore (step w (M.NewVec (nm (pgrad p), d, ds, b, zeros)));
+      (* assert_shape(value_, grad_): a minibatched shape is rejected; unwinding destroys
+         grad_ then value_ *)
+      if M.has_batch sh then begin
+        ignore (step w (M.Destroy (nm (pgrad p)))); ignore (step w (M.Destroy (nm (pval p)))); raise Err
+      end;
       ignore (step w (M.NewVec (nm (pstat p), d, ds, b, zeros)));
       w.pshape.(p) <- Some sh; "ok"
   (* SGD::update_parameter: param.value() -= (scale * eta_) * param.gradient(); *)
